@@ -61,7 +61,7 @@ func (e *Engine) newCtx(fn *ssa.Function, spec *FuncSpec, mode string) *FnCtx {
 		eng: e, sc: sc, ty: NewTypes(sc), fn: fn, spec: spec, mode: mode,
 		assumed: map[string]bool{}, unmodelled: map[string]bool{}, inlined: map[string]bool{},
 		obSeq: map[string]int{}, ghostDecl: map[string]bool{}, maxDepth: 8,
-		nonNil: map[string]bool{}, ranges: map[string]*rangeState{}, lastCall: map[string]Val{},
+		nonNil: map[string]bool{}, ranges: map[string]*rangeState{}, lastCall: map[string]Val{}, sliceLen: map[string]string{},
 	}
 	return c
 }
@@ -80,11 +80,11 @@ func (c *FnCtx) entryState() *State {
 		if et := c.eng.compElem[k]; et != nil {
 			switch {
 			case strings.HasPrefix(k, "E$"):
-				if rb := c.refBound(et, "(select (select "+n+" r) i)", st); rb != "true" {
+				if rb := And(c.refBound(et, "(select (select "+n+" r) i)", st), c.ty.Inv(et, "(select (select "+n+" r) i)")); rb != "true" {
 					c.sc.Decl("wf0:"+k, fmt.Sprintf("(assert (forall ((r Int) (i Int)) (! %s :pattern ((select (select %s r) i)))))", rb, n))
 				}
 			default:
-				if rb := c.refBound(et, "(select "+n+" r)", st); rb != "true" {
+				if rb := And(c.refBound(et, "(select "+n+" r)", st), c.ty.Inv(et, "(select "+n+" r)")); rb != "true" {
 					c.sc.Decl("wf0:"+k, fmt.Sprintf("(assert (forall ((r Int)) (! %s :pattern ((select %s r)))))", rb, n))
 				}
 			}
@@ -312,7 +312,7 @@ func (e *Engine) VerifyLemma(lm *LemmaSpec) *FnReport {
 	rep := &FnReport{Name: strings.TrimPrefix(strings.TrimPrefix(lm.Pkg, e.module+"/"), "pkg/") + ".lemma." + lm.Name}
 	for pass := 0; pass < 4; pass++ {
 		sc := NewScript()
-		c := &FnCtx{eng: e, sc: sc, ty: NewTypes(sc), assumed: map[string]bool{}, unmodelled: map[string]bool{}, inlined: map[string]bool{}, obSeq: map[string]int{}, ghostDecl: map[string]bool{}, nonNil: map[string]bool{}, ranges: map[string]*rangeState{}}
+		c := &FnCtx{eng: e, sc: sc, ty: NewTypes(sc), assumed: map[string]bool{}, unmodelled: map[string]bool{}, inlined: map[string]bool{}, obSeq: map[string]int{}, ghostDecl: map[string]bool{}, nonNil: map[string]bool{}, ranges: map[string]*rangeState{}, lastCall: map[string]Val{}, sliceLen: map[string]string{}}
 		rep.ctx = c
 		err := func() (err error) {
 			defer func() {
